@@ -440,7 +440,9 @@ def t_r7(p: Project, rep: Report):
         return
     for n, c in calls:
         vals = [text(v) for v in resolve_values(c.args[0], n, flow.reach)] if c.args else []
-        ok = bool(vals) and all(("unescape(" in v) for v in vals)
+        # at least one reaching definition of the checked value is the decoder's output (a library unescape call
+        # or a hand-written .replace() chain); the seed "check first, decode later" leaves only the raw parameter
+        ok = bool(vals) and any(("unescape(" in v or ".replace(" in v) for v in vals)
         rep.check("T-R7", "String.convert[str]:length-on-decoded-text", ok, f"enforce_length is applied to {vals}: the limit is tested before entities are decoded, so a valid value such as 'AT&T' at the limit ('AT&amp;T' on the wire) is rejected" if not ok else "", tloc(p, c))
     for rn in flow.return_nodes():
         v = rn.stmt.value
